@@ -16,7 +16,7 @@ def order_scenarios(engine, rng, n):
     S, D, P = dpgen.src, dpgen.dst, dpgen.proc
     out = []
     for i in range(n):
-        nrec = rng.randint(3, 6)
+        nrec = rng.randint(3, 9)
         tags = ["s1#%d" % k for k in range(1, nrec + 1)]
         results = {}
         kinds = ["pass", "pass", "filter", "error"] + (["multi2"] if engine == "v2" else [])
@@ -27,6 +27,14 @@ def order_scenarios(engine, rng, n):
         workers = rng.choice([2, 3]) if engine == "v1" else 1
         gated = engine == "v1" and rng.random() < 0.7
         procs = [P("p1", "pipeline", workers, results, gated=gated)]
+        if rng.random() < 0.5:
+            # a second processor behind the first one: its batch has holes where the first one filtered / rejected
+            r2 = {}
+            for t in tags:
+                k = rng.choice(["pass", "pass", "modify", "filter"] + (["multi2"] if engine == "v2" else []))
+                if k != "pass" and results.get(t) in (None, "modify"):
+                    r2[t] = k
+            procs.append(P("p2", "pipeline", 1, r2, default=rng.choice(["pass", "modify"])))
         M = rng.choice([1, 2])
         dests = [D("d%d" % (k + 1), outcomes={t: "verif: rejected" for t in tags if rng.random() < 0.2})
                  for k in range(M)]
